@@ -88,7 +88,7 @@ def judge_quartet(case):
 
 
 def shards_quartets(tier):
-    n, kmax = (1, 2) if tier == "quick" else (12, 3)
+    n, kmax = (2, 2) if tier == "quick" else (12, 3)
     out = []
     for ls in itertools.product(range(4), repeat=4):
         out.append({"id": "".join(map(str, ls)), "ls": list(ls), "n": n, "kmax": kmax, "cost": n * (1 + sum(ls)) ** 3})
